@@ -24,7 +24,7 @@ func c05Alphabet(reduced bool) []amgr.Op {
 		{K: "unlock"}, {K: "lock"}, {K: "unlock_wrong"}, {K: "chpass_priv"}, {K: "restart"},
 		{K: "next_ext", N: 1}, {K: "derive_cache", N: 0}, {K: "lookup_all"}, {K: "import_priv", N: 1},
 		{K: "import_wscript", N: 1}, {K: "new_watch_account"}, {K: "next_ext", A: 1, N: 1}, {K: "invalidate_cache"},
-		{K: "derive", N: 3},
+		{K: "derive", N: 3}, {K: "import_tapscript"},
 	}
 	if !reduced {
 		a = append(a, amgr.Op{K: "unlock_old"}, amgr.Op{K: "chpass_pub"}, amgr.Op{K: "extend_ext", N: 2},
@@ -82,6 +82,12 @@ func runC05(args []string) {
 	amgr.FastScrypt()
 	if !ev.IsWorker() {
 		cov := run.RunSharded(16, append([]string{"c05"}, args...))
+		wx, we := c05Wallet(run)
+		cov["wallet_level_passphrase_sequences"] = wx
+		if e, ok := cov["evaluations"].(int); ok {
+			cov["evaluations"] = e + we
+		}
+		cov["wallet_level_rule"] = "every sequence of <=2 calls over Wallet.{ChangePassphrases, ChangePrivatePassphrase, ChangePublicPassphrase} x old passphrase right/wrong per half x wallet locked/unlocked before, through the walletLocker goroutine: a refused call changes nothing (the private passphrase in force still unlocks, the requested one does not), a successful one switches exactly what was asked; same on a wallet reopened on the file with the public passphrase in force"
 		cov["rule"] = "every operation sequence up to the depth over the alphabet from several base states; in the reached state: every private-material accessor applied to every managed address/path must fail while locked or watching-only, the clear-text hook must report every buffer wiped after a lock (explicit, failed unlock), wrong/old passphrases fail and leave it locked, the current one unlocks; non-trivial = sequences ending locked or watching-only after having been unlocked at least once"
 		if _, ok := cov["samples"]; !ok {
 			cov["samples"] = []string{"(none)"}
